@@ -99,6 +99,29 @@ def rule_pure(ctx):
                 for t in st.targets:
                     if isinstance(t, ast.Name):
                         globs.add(t.id)
+        # module-level names that can carry state between calls: mutable containers, names re-bound through `global`,
+        # names some function stores into or calls a mutator on (a logger or a numeric constant is not state)
+        MUT = ("append", "extend", "insert", "update", "setdefault", "pop", "popitem", "clear", "add", "remove", "discard", "__setitem__")
+        stateful = set()
+        for st in mod.tree.body:
+            if isinstance(st, ast.Assign) and any(isinstance(t, ast.Name) for t in st.targets):
+                v = st.value
+                if isinstance(v, (ast.Dict, ast.List, ast.Set, ast.ListComp, ast.DictComp, ast.SetComp)) or (
+                        isinstance(v, ast.Call) and (dotted(v.func) or "").split(".")[-1] in (
+                            "dict", "list", "set", "defaultdict", "OrderedDict", "deque", "Counter", "WeakValueDictionary", "WeakKeyDictionary", "lru_cache", "zeros", "empty")):
+                    stateful |= {t.id for t in st.targets if isinstance(t, ast.Name)}
+        for f_ in mod.funcs.values():
+            for n in walk_no_nested(f_.node):
+                if isinstance(n, ast.Global):
+                    stateful |= set(n.names)
+                if isinstance(n, ast.Call) and isinstance(n.func, ast.Attribute) and n.func.attr in MUT and isinstance(n.func.value, ast.Name) and n.func.value.id in globs:
+                    stateful.add(n.func.value.id)
+                if isinstance(n, (ast.Subscript, ast.Attribute)) and isinstance(n.ctx, ast.Store):
+                    b_ = n
+                    while isinstance(b_, (ast.Subscript, ast.Attribute)):
+                        b_ = b_.value
+                    if isinstance(b_, ast.Name) and b_.id in globs:
+                        stateful.add(b_.id)
         for q, f in mod.funcs.items():
             params = set(f.all_params)
             local = set()
@@ -120,8 +143,8 @@ def rule_pure(ctx):
                     bad.append("%s: id(...) used (object identity is not a function of the values)" % q)
                     node0 = node0 or n
                 if isinstance(n, ast.Name) and isinstance(n.ctx, ast.Load) and n.id in globs and n.id not in params \
-                        and n.id not in local and n.id not in mod.funcs and not n.id.isupper():
-                    bad.append("%s: reads module-level variable %s" % (q, n.id))
+                        and n.id not in local and n.id not in mod.funcs and n.id in stateful:
+                    bad.append("%s: reads module-level state %s" % (q, n.id))
                     node0 = node0 or n
             for d in f.decorators:
                 if "cache" in d:
